@@ -1,8 +1,11 @@
 package main
 
 import (
+	"fmt"
 	"go/types"
 	"sort"
+
+	"golang.org/x/tools/go/ssa"
 )
 
 // Regions are declared per struct type. The frame obligations allow execution code to write fields of
@@ -92,6 +95,80 @@ func regionObligations(p *Prog) []*Obligation {
 				ob.Result = "static-fail"
 			}
 			out = append(out, ob)
+		}
+	}
+	return out
+}
+
+// reentryObligations: the static side of termination for recursion that no measure bounds. For a declaration
+// "reentry F G...", every call of F that sits in a function reachable from F or from one of the G nests a new
+// activation of F inside a running one; since what F processes comes from outside (a loader), nothing bounds
+// the nesting. One obligation per such call site; it holds only if there is no such site.
+func reentryObligations(p *Prog, prop string) []*Obligation {
+	var out []*Obligation
+	byName := map[string]*ssa.Function{}
+	for _, fn := range p.FuncList {
+		byName[p.FuncName(fn)] = fn
+	}
+	for _, rd := range p.Contracts.Reentry {
+		claimed := false
+		for _, pr := range rd.Props {
+			if pr == prop {
+				claimed = true
+			}
+		}
+		if !claimed {
+			continue
+		}
+		target := byName[rd.Funcs[0]]
+		if target == nil {
+			out = append(out, &Obligation{Name: "reentry/" + rd.Funcs[0] + "/contract-applies", Kind: "contract-applies", Func: "(callgraph)", Props: rd.Props, Result: "static-fail", Solver: "static", Src: "reentry names a function that does not exist"})
+			continue
+		}
+		reach := map[*ssa.Function]bool{}
+		var visit func(fn *ssa.Function)
+		visit = func(fn *ssa.Function) {
+			if fn == nil || reach[fn] {
+				return
+			}
+			reach[fn] = true
+			for _, c := range p.calleesOf(fn) {
+				visit(c)
+			}
+		}
+		for _, n := range rd.Funcs {
+			visit(byName[n])
+		}
+		var fns []*ssa.Function
+		for fn := range reach {
+			fns = append(fns, fn)
+		}
+		sort.Slice(fns, func(i, j int) bool { return p.FuncName(fns[i]) < p.FuncName(fns[j]) })
+		found := 0
+		for _, fn := range fns {
+			ords := map[string]int{}
+			for _, b := range fn.Blocks {
+				for _, in := range b.Instrs {
+					ci, ok := in.(ssa.CallInstruction)
+					if !ok || ci.Common().StaticCallee() != target {
+						continue
+					}
+					lh := p.lineHash(in.Pos())
+					name := fmt.Sprintf("%s/reentry/%s@%s", p.FuncName(fn), rd.Funcs[0], lh)
+					if ords[lh] > 0 {
+						name += fmt.Sprintf("#%d", ords[lh])
+					}
+					ords[lh]++
+					found++
+					out = append(out, &Obligation{Name: name, Kind: "reentry", Func: p.FuncName(fn), Pos: p.Fset.Position(in.Pos()).String(), Props: rd.Props,
+						Result: "static-fail", Solver: "static",
+						Src: "the call starts another activation of " + rd.Funcs[0] + " while one is running (the caller is reachable from it): nothing bounds the depth of this recursion"})
+				}
+			}
+		}
+		if found == 0 {
+			out = append(out, &Obligation{Name: "reentry/" + rd.Funcs[0] + "/never-re-entered", Kind: "reentry", Func: "(callgraph)", Props: rd.Props, Result: "unsat", Solver: "static", Trivial: true,
+				Src: "no function reachable from " + rd.Funcs[0] + " calls it"})
 		}
 	}
 	return out
